@@ -116,8 +116,11 @@ def service(flavour):
                 self = __new__(cls)
             else:
                 self = __new__(cls, *args, **kwargs)
-            service_unit = ServiceUnit(self, flavour)
-            self.__service_unit__ = service_unit
+            # ``__new__`` may hand out an instance that exists already (a singleton):
+            # it is still one service and keeps its unit
+            service_unit = getattr(self, "__service_unit__", None)
+            if service_unit is None or service_unit.flavour != flavour:
+                self.__service_unit__ = ServiceUnit(self, flavour)
             return self
 
         raw_cls.__new__ = __new_service__
